@@ -23,6 +23,19 @@ def wrap (a : Annotation) (sel : List (Char × List Mod)) : Annotation :=
     charge := a.charge
     adducts := normList a.adducts }
 
+/-- a present-but-empty list becomes `None` (nothing else changes) -/
+def dropEmptyList : Option (List Mod) → Option (List Mod)
+  | some [] => none
+  | x => x
+
+/-- the annotation with the empty-but-present labile / static / isotope / C-term / adduct lists set to `None`: the serializer
+writes nothing for these five when they are empty, so the text is the same. (An empty-but-present *unknown-position* or
+*N-term* list is different: `has_unknown_mods()` / `has_nterm_mods()` are `is not None`, a bare `?` / `-` is written and the
+result does not parse - see the counter-examples in Props/C19.lean.) -/
+def dropEmpty (a : Annotation) : Annotation :=
+  { a with labile := dropEmptyList a.labile, static := dropEmptyList a.static, isotope := dropEmptyList a.isotope,
+           cterm := dropEmptyList a.cterm, adducts := dropEmptyList a.adducts }
+
 /-- the mods a residue of an annotation carries -/
 def modsAt (a : Annotation) (i : Nat) : List Mod := (getInternal a (i : Int)).getD []
 
